@@ -379,7 +379,7 @@ func ExpandFirst(p *core.Prog, r *core.Report) {
 		})
 	}
 	r.Count("spec_schema_validator_sites", n)
-	r.Floor("spec_schema_validator_sites", 5)
+	r.Floor("spec_schema_validator_sites", 4)
 }
 
 // resolvabilityPredicate: a boolean function of one schema that answers true only when the validator holds a
